@@ -12,11 +12,18 @@ import (
 
 func descStep(s Step) string {
 	var sb strings.Builder
-	if s.Before != "" {
-		fmt.Fprintf(&sb, "Before(%s).", s.Before)
+	if s.Tx && !s.Builtin {
+		sb.WriteString("Match(tx).")
 	}
-	if s.After != "" {
-		fmt.Fprintf(&sb, "After(%s).", s.After)
+	if s.Chain == "AB" && s.Before != "" && s.After != "" {
+		fmt.Fprintf(&sb, "After(%s).Before(%s).", s.After, s.Before)
+	} else {
+		if s.Before != "" {
+			fmt.Fprintf(&sb, "Before(%s).", s.Before)
+		}
+		if s.After != "" {
+			fmt.Fprintf(&sb, "After(%s).", s.After)
+		}
 	}
 	switch s.Kind {
 	case "register":
